@@ -1415,6 +1415,17 @@ def m_int_widen(it, n, a):
     return x
 
 
+@model(r'^<(u8|u16|u32|usize|u64|i32|i64) as (std::convert::)?From<bool>>::from$|^<bool as (std::convert::)?Into<(u8|u16|u32|usize|u64|i32|i64)>>::into$')
+def m_int_from_bool(it, n, a):
+    """false -> 0, true -> 1"""
+    m_ = re.search(r'Into<(\w+)>|^<(\w+) as', n)
+    w = {'u8': 8, 'u16': 16, 'u32': 32, 'u64': 64, 'usize': 64, 'i32': 32, 'i64': 64}[m_.group(1) or m_.group(2)]
+    x = deref(a[0])
+    if is_sym(x):
+        return z3.If(x, z3.BitVecVal(1, w), z3.BitVecVal(0, w))
+    return z3.BitVecVal(1 if x else 0, w)
+
+
 @model(r'as Iterator>::rposition::<')
 def m_iter_rposition(it, n, a):
     """index (from the front) of the last element satisfying the predicate"""
